@@ -13,6 +13,9 @@ R04.d  solver progress: solve loops until the schedule is complete around
        chooser's machine.
 R04.e  metadata: elapsed_time = (clock after solve) - (clock before);
        solved_by is the solver's class name.
+R04.l  per-dispatcher caches: a scorer / rule object that remembers the
+       dispatcher it last worked for drops every observer it fetched from the
+       previous one, wholly, on the dispatcher-changed branch.
 R04.f  registries are total and name-consistent; machine choosers return an
        element of ``operation.machines``.
 R04.h  no function of these modules modifies the object of a mutable default
@@ -55,6 +58,7 @@ MANIFEST = {
         " Also decided: no for-loop variable of these modules is read after its loop (statement left one indentation level too shallow)."
         " Also decided: no str-Enum value is tested by identity (plain strings are accepted for these enums)."
         " Also decided: no closure created in a loop keeps the loop variable by reference (late binding)."
+        " Also decided: an object that caches observers per dispatcher resets every such cache wholly when the dispatcher changes."
     ),
     "note": "Criterion idioms recognised: min/max(xs, key=...), sorted(xs, key=...)[0], negated keys; accumulation tables built by a loop over a dispatcher query. Other shapes are ANALYSIS-ERROR.",
     "technique": "abstract interpretation (element-of domain) + criterion table matching + def-use order of clock reads + registry table check",
@@ -181,6 +185,11 @@ def _table(fi: FuncInfo, name: str, ctx=None, depth=0):
                     rets = [r for r in own_nodes(t.node) if isinstance(r, ast.Return) and isinstance(r.value, ast.Name)]
                     if len(rets) == 1:
                         return _table(t, rets[0].value.id, ctx, depth + 1)
+                    # the callee may itself delegate (a public scoring function re-expressed through a private accumulator)
+                    tf = ctx.norm.flat(t, depth=3)
+                    rets = [r for r in own_nodes(tf.node) if isinstance(r, ast.Return) and isinstance(r.value, ast.Name)]
+                    if len(rets) == 1:
+                        return _table(tf, rets[0].value.id, ctx, depth + 1)
     for n in own_nodes(fi.node):
         if isinstance(n, ast.For):
             src = n.iter
@@ -592,10 +601,146 @@ def _ortools_metadata(ctx, cls, call):
         v = ctx.norm.xexpr(solve, kv["elapsed_time"])  # e.g. one element of a tuple returned by an inlined step
     _elapsed(ctx, solve, v)
     sb = kv.get("solved_by")
+    if isinstance(sb, ast.Attribute) and isinstance(sb.value, ast.Name) and sb.value.id == "self":
+        # a class-level constant of the solver class (`_solved_by = "ORToolsSolver"`)
+        ca = ctx.repo.class_attr(cls, sb.attr)
+        if isinstance(ca, ast.Constant):
+            sb = ca
     if isinstance(sb, ast.Constant) and sb.value == cls.name or (sb is not None and ast.unparse(sb) in ("self.__class__.__name__", "type(self).__name__")):
         chk.ok("R04.e", solve.qualname, solve.loc(md), "solved_by = class name")
     else:
         chk.violation("R04.e", solve, md, f"solved_by is `{ast.unparse(sb) if sb is not None else 'missing'}`, not `{cls.name}`", loc=solve.loc(md))
+
+
+def per_dispatcher_caches(ctx):
+    """R04.l - a scorer / rule object that remembers which dispatcher it last
+    worked for (`if self._d is not dispatcher: ...; self._d = dispatcher`)
+    forgets *everything* it fetched from the previous dispatcher on that
+    branch: every attribute that holds an observer obtained through
+    ``create_or_get_observer`` is wholly reset there (rebinding or
+    ``clear()``); dropping a single key, or one of several attributes, leaves
+    an observer of the old dispatcher in use."""
+    chk, repo = ctx.chk, ctx.repo
+    chk.rule("R04.l", "an object caching observers per dispatcher resets every such cache wholly when the dispatcher changes")
+    from .common import modules_defining
+
+    names = modules_defining(ctx, "job_shop_lib.dispatching.rules", lambda n: n.endswith(("_rule", "_score", "Scorer")))
+    n = 0
+    for c in sorted(repo.classes.values(), key=lambda k: k.qualname):
+        if c.module.name not in names:
+            continue
+        call = repo.method(c, "__call__")
+        if call is None or len(call.params) < 2:
+            continue
+        f = ctx.norm.flat(call, depth=3)
+        me, dp = call.params[0], call.params[1]
+
+        def self_attr(x):
+            return x.attr if isinstance(x, ast.Attribute) and isinstance(x.value, ast.Name) and x.value.id == me else None
+
+        defs = ctx.flow.defs(f)
+
+        def root_attr(x, depth=0):
+            """first attribute of self that the expression is reached through"""
+            while isinstance(x, (ast.Attribute, ast.Subscript)):
+                if isinstance(x, ast.Attribute) and isinstance(x.value, ast.Name) and x.value.id == me:
+                    return x.attr
+                x = x.value
+            if isinstance(x, ast.Name) and depth < 3:
+                ds = defs.of(x.id)
+                if len(ds) == 1 and ds[0][0] == "value":
+                    return root_attr(ds[0][1], depth + 1)
+            return None
+
+        # caches: <target> = <...create_or_get_observer(...)>, <target>[k] = <local holding one>
+        fetched = set()
+        for a in own_nodes(f.node):
+            if isinstance(a, ast.Assign) and isinstance(a.value, ast.Call) and isinstance(a.value.func, ast.Attribute) and a.value.func.attr == "create_or_get_observer":
+                for t in a.targets:
+                    if isinstance(t, ast.Name):
+                        fetched.add(t.id)
+        caches = set()
+        # ... in __call__ itself or in any method of the object it runs (a
+        # helper with a nested function is not written out by the normaliser)
+        from ..lifecycle import Lifecycle
+
+        scan = [f] + [g for g, _via in Lifecycle(ctx).self_closure(call, c) if g is not call]
+        for g in scan:
+            gme = g.params[0] if g.params else me
+            fetched_g = set(fetched) if g is f else {
+                t.id for a in own_nodes(g.node)
+                if isinstance(a, ast.Assign) and isinstance(a.value, ast.Call) and isinstance(a.value.func, ast.Attribute) and a.value.func.attr == "create_or_get_observer"
+                for t in a.targets if isinstance(t, ast.Name)
+            }
+            for a in own_nodes(g.node):
+                if not isinstance(a, ast.Assign):
+                    continue
+                direct = isinstance(a.value, ast.Call) and isinstance(a.value.func, ast.Attribute) and a.value.func.attr == "create_or_get_observer"
+                via = isinstance(a.value, ast.Name) and a.value.id in fetched_g
+                if not (direct or via):
+                    continue
+                for t in a.targets:
+                    if isinstance(t, ast.Name):
+                        continue
+                    if g is f:
+                        r = root_attr(t)
+                    else:
+                        x = t
+                        r = None
+                        while isinstance(x, (ast.Attribute, ast.Subscript)):
+                            if isinstance(x, ast.Attribute) and isinstance(x.value, ast.Name) and x.value.id == gme:
+                                r = x.attr
+                                break
+                            x = x.value
+                    if r:
+                        caches.add((r, ast.unparse(t).replace(gme + ".", me + ".", 1) if gme != me else ast.unparse(t)))
+        if not caches:
+            continue
+        for st in own_nodes(f.node):
+            if not (isinstance(st, ast.If) and isinstance(st.test, ast.Compare) and len(st.test.ops) == 1 and isinstance(st.test.ops[0], (ast.IsNot, ast.NotEq, ast.Is, ast.Eq))):
+                continue
+            sides = [st.test.left, st.test.comparators[0]]
+            tag_expr = next((x for x in sides if root_attr(x) and not isinstance(x, ast.Name)), None)
+            if tag_expr is None or not any(isinstance(x, ast.Name) and x.id == dp for x in sides):
+                continue
+            tag_root = root_attr(tag_expr)
+            changed = st.body if isinstance(st.test.ops[0], (ast.IsNot, ast.NotEq)) else st.orelse
+            body_nodes = [x for b_ in changed for x in ast.walk(b_)]
+            # the branch must re-establish the tag: `self.<tag> = dispatcher`, or a new object for its root
+            retag = any(
+                isinstance(x, ast.Assign) and any(
+                    (ast.unparse(t) == ast.unparse(tag_expr) and isinstance(x.value, ast.Name) and x.value.id == dp)
+                    or (self_attr(t) == tag_root and any(isinstance(y, ast.Name) and y.id == dp for y in ast.walk(x.value)))
+                    for t in x.targets
+                )
+                for x in body_nodes
+            )
+            if not retag:
+                continue
+            n += 1
+            for attr, shown in sorted(caches):
+                whole = any(
+                    isinstance(x, ast.Assign) and any(self_attr(t) == attr or ast.unparse(t) == shown for t in x.targets) for x in body_nodes
+                ) or any(
+                    isinstance(x, ast.Call) and isinstance(x.func, ast.Attribute) and x.func.attr == "clear" and self_attr(x.func.value) == attr for x in body_nodes
+                )
+                if whole:
+                    chk.ok("R04.l", f"{c.qualname}.{attr}", f.loc(st), f"`{shown}` reset when the dispatcher changes")
+                    continue
+                partial = [
+                    x for x in body_nodes
+                    if isinstance(x, ast.Call) and isinstance(x.func, ast.Attribute) and x.func.attr in ("pop", "discard", "remove") and self_attr(x.func.value) == attr
+                    or isinstance(x, ast.Delete) and any(isinstance(t, ast.Subscript) and self_attr(t.value) == attr for t in x.targets)
+                ]
+                chk.violation(
+                    "R04.l", f, partial[0] if partial else st,
+                    f"when the dispatcher changes, `{shown}` (which holds an observer fetched from a dispatcher) is "
+                    + ("only emptied for one key (`" + ast.unparse(partial[0])[:60] + "`)" if partial else "not reset")
+                    + ": an observer subscribed to the previous dispatcher keeps being read, so the scores - and the operation "
+                    "the rule selects - are computed from another dispatcher's state",
+                    loc=f.loc(partial[0] if partial else st),
+                )
+    chk.floor("R04.l", n, 1, "dispatcher-changed branches in scorer objects")
 
 
 # ---------------------------------------------------------------- registries
@@ -831,3 +976,4 @@ def run(ctx):
     ctx.attempt(solver, ctx)
     ctx.attempt(metadata, ctx)
     ctx.attempt(purity, ctx)
+    ctx.attempt(per_dispatcher_caches, ctx)
